@@ -1,6 +1,7 @@
 import Pearl.Model.Script
 import Pearl.Model.Worker
 import Pearl.Model.Record
+import Pearl.Model.BPTreeBytes
 /-
 Driver state around the L2 store: configuration, a lower bound of wall-clock time (sum of `wait`s),
 blob birth times (for the rotation debounce), open/closed.  Nondeterministic background events
@@ -48,6 +49,44 @@ def cfgNat (toks : List String) (key : String) (dflt : Nat) : Nat :=
   match toks.findSome? (fun t => match kv t with | some (k, v) => if k == key then v.toNat? else none | none => none) with
   | some n => n
   | none => dflt
+
+/-- stable insertion by timestamp (what `push` does, see `push_eq` in Proofs/IndexLemmas) on records paired
+    with their full on-disk headers -/
+def insertAsc (x : Rec × BPTree.RawHeader) (v : List (Rec × BPTree.RawHeader)) : List (Rec × BPTree.RawHeader) :=
+  v.takeWhile (fun y => y.1.ts ≤ x.1.ts) ++ x :: v.dropWhile (fun y => y.1.ts ≤ x.1.ts)
+
+def rawOf (h : RecHeader) (key : Nat) : BPTree.RawHeader :=
+  { key := key, metaSize := h.metaSize, dataSize := h.dataSize, flags := h.flags.toNat, blobOffset := h.blobOffset,
+    timestamp := h.timestamp, dataChecksum := h.dataChecksum.toNat, headerChecksum := h.headerChecksum.toNat }
+
+def insertKeySorted (k : Nat) : List Nat → List Nat
+  | [] => [k]
+  | x :: xs => if k < x then k :: x :: xs else if k == x then x :: xs else x :: insertKeySorted k xs
+
+/-- L4: the byte image of the index file of a blob (filter section and hash zeroed), as dumped from the
+    in-memory index built by pushing the blob's headers in file order -/
+def indexImage (klen : Nat) (b : Blob) (metaLen : Nat) : List UInt8 :=
+  let withData := b.recs.map fun r => (r, genData r.data.len r.data.seed)
+  let hdrs := blobHeaders klen withData
+  let blobSize := (blobBytes klen withData).length
+  let pairs := (b.recs.zip hdrs).map fun (r, h) => (r, rawOf h r.key)
+  let keys := pairs.foldl (fun ks p => insertKeySorted p.1.key ks) []
+  let m : BPTree.InMem BPTree.RawHeader := keys.map fun k =>
+    (k, ((pairs.filter (fun p => p.1.key == k)).foldl (fun v x => insertAsc x v) []).map (·.2))
+  let f := BPTree.build (BPTree.Params.real klen) metaLen m
+  let bytes := BPTree.indexFileBytes f (List.replicate metaLen 0) (List.replicate 32 0) blobSize
+  bytes.map UInt8.ofNat
+
+def annotNats (toks : List String) (key : String) : List (Nat × Nat) :=
+  match toks.find? (fun t => t.startsWith ("@" ++ key ++ "=")) with
+  | none => []
+  | some t =>
+    ((t.drop (key.length + 2)).toString.splitOn ",").filterMap fun p =>
+      match p.splitOn ":" with
+      | [a, b] => match a.toNat?, b.toNat? with
+        | some a, some b => some (a, b)
+        | _, _ => none
+      | _ => none
 
 /-- rotation after a write: `TryUpdateActiveBlob` is sent when the active blob is at/over its record
     limit and older than the debounce interval; the worker then replaces it -/
@@ -119,6 +158,13 @@ def step (d : DState) (line : String) : DState × String :=
         (d, "#blobsum" ++ String.join (d.store.blobs.map fun b =>
           let bytes := blobBytes d.klen (b.recs.map fun r => (r, genData r.data.len r.data.seed))
           s!" {b.id}:{bytes.length}:{(crc32c bytes).toNat}"))
+      | ["indexsum"] =>
+        let metas := annotNats toks0 "meta"
+        (d, "#indexsum" ++ String.join ((d.store.blobs.filter (·.onDisk)).map fun b =>
+          let ml := match metas.find? (·.1 == b.id) with | some p => p.2 | none => 0
+          let img := indexImage d.klen b ml
+          s!" {b.id}:{img.length}:{ml}:{(crc32c img).toNat}"))
+      | ["snap"] => (d, "snap ok")
       | ["settle"] =>
         -- every requested dump has completed (`dumpDone`)
         ({ d with store := d.store.apply .settle, dumpRunning := false, deferred := false }, "ok")
